@@ -48,7 +48,7 @@ def gen_layout(rng, depth):
     if k < 0.7:
         return ["union", [[f"u{j}", gen_layout(rng, depth - 1)] for j in range(rng.randrange(1, 4))]]
     if k < 0.88:
-        return ["array", gen_layout(rng, depth - 1), rng.choice([0, 1, 2, 3])]
+        return ["array", gen_layout(rng, depth - 1), rng.choice([0, 1, 2, 3, 4, 5])]
     fields = []
     size = rng.randrange(1, 10)
     for j in range(rng.randrange(1, 4)):
@@ -226,6 +226,57 @@ def check_static(l, rng, out):
             out["extra"]["fields_read"] += 1
             if got != exp:
                 raise V("field-read-back", raw=raw, path=list(path), got=got, expected=exp, leaf=leaf)
+
+
+def array_nodes(l, base=0, path=()):
+    """-> [(path, array layout node, absolute offset)] for every array inside l (including l)."""
+    out = []
+    if is_leaf(l):
+        return out
+    if l[0] == "array":
+        out.append((path, l, base))
+    for k, s, o in fields(l):
+        out.extend(array_nodes(s, base + o, path + (k,)))
+    return out
+
+
+SLICES = [slice(None, None, 2), slice(None, None, -1), slice(None, None, -2), slice(1, None, 2), slice(None, None, 3),
+          slice(0, 2), slice(1, 3), slice(None, -1), slice(2, 1), slice(-1, None, -2)]
+
+
+def check_array_slices(l, rng, out):
+    """Slicing a constant (or a view) of array layout with any stride gives the array of the selected
+    elements, exactly as slicing a Python list does."""
+    L = real(l)
+    if is_leaf(l):
+        return
+    for apath, arr, aoff in array_nodes(l)[:3]:
+        n = arr[2]
+        ew = lsize(arr[1])
+        for raw in raws_for(l, rng)[:6]:
+            c = L.from_bits(raw)
+            sub = c
+            for k in apath:
+                sub = sub[k]
+            elems = [((raw >> (aoff + i * ew)) & ((1 << ew) - 1)) for i in range(n)]
+            for sl in SLICES:
+                exp = elems[sl]
+                try:
+                    got = sub[sl]
+                except Exception as e:
+                    if exc_origin(e) != "repo":
+                        raise
+                    if not exp:
+                        continue        # an empty selection may be refused
+                    raise V("const-array-slice-exception", raw=raw, path=list(apath), slice=repr(sl), exception=repr(e)[:200])
+                out["evaluations"] += 1
+                out["extra"]["array_slices"] += 1
+                if len(got) != len(exp):
+                    raise V("const-array-slice-length", raw=raw, path=list(apath), slice=repr(sl), got=len(got), expected=len(exp))
+                bits = got.as_bits()
+                expbits = sum(e << (i * ew) for i, e in enumerate(exp))
+                if bits != expbits:
+                    raise V("const-array-slice-elements", raw=raw, path=list(apath), slice=repr(sl), got=bits, expected=expbits)
 
 
 def gen_init(l, rng, allow_hconst=True):
@@ -491,6 +542,30 @@ def check_sim(l, rng, out):
             if got != exp:
                 bad.append(("view-field-assignment-ctx-set", dict(raw=raw, path=list(path), value=v, got=got, expected=exp)))
                 return
+        # one ctx.set through a reversed / strided slice of an array view: every selected element is
+        # written (several pieces of the same underlying signal in one write)
+        for apath, arr, aoff in array_nodes(l)[:2]:
+            n, ew = arr[2], lsize(arr[1])
+            if n < 2 or ew == 0 or not is_leaf(arr[1]) or arr[1][0] == "enum":
+                continue
+            for sl in (slice(None, None, -1), slice(None, None, 2), slice(1, None, 2)):
+                idx = list(range(n))[sl]
+                raw = raws[0]
+                vals = [rng.getrandbits(ew) for _ in idx]
+                sgn = arr[1][0] == "s"
+                setv = [norm(x, ew, sgn) for x in vals]
+                ctx.set(Value.cast(tbv), raw)
+                target = view_path(tbv, apath)[sl] if apath else tbv[sl]
+                ctx.set(target, setv)
+                exp = raw
+                for i, x in zip(idx, vals):
+                    m_ = ((1 << ew) - 1) << (aoff + i * ew)
+                    exp = (exp & ~m_) | (x << (aoff + i * ew))
+                got = ctx.get(Value.cast(tbv))
+                out["extra"]["view_writes"] += 1
+                if got != exp:
+                    bad.append(("view-array-slice-assignment-ctx-set", dict(raw=raw, path=list(apath), slice=repr(sl), values=vals, got=got, expected=exp)))
+                    return
     sim.add_testbench(tb)
     sim.run()
     if bad:
@@ -631,7 +706,7 @@ def run_shard(spec):
     instrument.install_slot_invariant()
     out = {"evaluations": 0, "fps": set(), "hist": {}, "violations": [], "samples": [], "exhaustive": [],
            "extra": {"fields_read": 0, "view_reads": 0, "view_writes": 0, "flag_ops": 0, "skipped_invalid_enum_bits": 0,
-                     "layouts": 0, "synth_field_reads": 0, "synth_field_writes": 0}}
+                     "layouts": 0, "synth_field_reads": 0, "synth_field_writes": 0, "array_slices": 0}}
     rng = derive_rng("c15", spec["seed"], spec["shard"])
     for n in range(spec["layouts"]):
         l = gen_layout(rng, rng.randrange(1, spec["depth"] + 1))
@@ -639,6 +714,7 @@ def run_shard(spec):
             continue
         out["extra"]["layouts"] += 1
         for label, fn in (("static", lambda: check_static(l, rng, out)), ("const", lambda: check_const(l, rng, out)),
+                          ("slices", lambda: check_array_slices(l, rng, out)),
                           ("sim", lambda: check_sim(l, rng, out)), ("synth", lambda: check_synth(l, rng, out))):
             try:
                 fn()
@@ -693,7 +769,7 @@ def replay(rec):
     rng = derive_rng("c15-replay")
     out = {"evaluations": 0, "hist": {}, "fps": set(),
            "extra": {"fields_read": 0, "view_reads": 0, "view_writes": 0, "flag_ops": 0, "skipped_invalid_enum_bits": 0,
-                     "synth_field_reads": 0, "synth_field_writes": 0}}
+                     "synth_field_reads": 0, "synth_field_writes": 0, "array_slices": 0}}
     hits = []
     for label, fn in (("static", lambda: check_static(l, rng, out)), ("const", lambda: [check_const(l, rng, out) for _ in range(10)]),
                       ("sim", lambda: check_sim(l, rng, out)), ("synth", lambda: check_synth(l, rng, out))):
